@@ -21,9 +21,10 @@ import (
 type LState struct {
 	Held map[string]bool // must-held locks
 	Acq  map[string]int  // may-count of acquisitions so far on some path (saturates at 2)
+	May  map[string]bool // locks held on at least one path reaching this point (may-held)
 }
 
-func newLState() LState { return LState{Held: map[string]bool{}, Acq: map[string]int{}} }
+func newLState() LState { return LState{Held: map[string]bool{}, Acq: map[string]int{}, May: map[string]bool{}} }
 
 func (s LState) clone() LState {
 	n := newLState()
@@ -32,6 +33,9 @@ func (s LState) clone() LState {
 	}
 	for k, v := range s.Acq {
 		n.Acq[k] = v
+	}
+	for k := range s.May {
+		n.May[k] = true
 	}
 	return n
 }
@@ -43,7 +47,12 @@ func (s LState) key() string {
 		a = append(a, fmt.Sprintf("%s=%d", k, v))
 	}
 	sort.Strings(a)
-	return strings.Join(h, ",") + "|" + strings.Join(a, ",")
+	var m []string
+	for k := range s.May {
+		m = append(m, k)
+	}
+	sort.Strings(m)
+	return strings.Join(h, ",") + "|" + strings.Join(a, ",") + "|" + strings.Join(m, ",")
 }
 
 func (s LState) heldList() []string {
@@ -70,6 +79,12 @@ func joinL(a, b LState) LState {
 		if v > n.Acq[k] {
 			n.Acq[k] = v
 		}
+	}
+	for k := range a.May {
+		n.May[k] = true
+	}
+	for k := range b.May {
+		n.May[k] = true
 	}
 	return n
 }
@@ -398,6 +413,7 @@ func (w *LockWalker) step(fn *ssa.Function, r *Resolver, ins ssa.Instruction, st
 					w.ev(rec, LEvent{Kind: "undecided", What: "deferred unlock of a lock not held: " + ln, Pos: w.P.InstrPos(d), Fn: fname, Stack: stack})
 				}
 				delete(st.Held, ln)
+				delete(st.May, ln)
 				w.ev(rec, LEvent{Kind: "release", What: ln, Pos: w.P.InstrPos(d), Fn: fname, Held: st.heldList(), Stack: stack, Detail: "deferred"})
 				continue
 			}
@@ -528,6 +544,10 @@ func (w *LockWalker) call(fn *ssa.Function, r *Resolver, ins ssa.Instruction, cc
 		ln := lockName(r, cc)
 		if st.Held[ln] {
 			w.ev(rec, LEvent{Kind: "reacquire", What: ln, Pos: pos, Fn: fname, Held: st.heldList(), Stack: stack})
+		} else if st.May[ln] {
+			// held on some path reaching this acquisition (e.g. on the first
+			// visit of a loop body whose later visits follow a release)
+			w.ev(rec, LEvent{Kind: "reacquire", What: ln, Pos: pos, Fn: fname, Held: st.heldList(), Stack: stack, Detail: "may"})
 		}
 		if st.Acq[ln] >= 1 {
 			w.ev(rec, LEvent{Kind: "secondcs", What: ln, Pos: pos, Fn: fname, Held: st.heldList(), Stack: stack})
@@ -535,6 +555,7 @@ func (w *LockWalker) call(fn *ssa.Function, r *Resolver, ins ssa.Instruction, cc
 		w.ev(rec, LEvent{Kind: "acquire", What: ln, Pos: pos, Fn: fname, Held: st.heldList(), Stack: stack})
 		st = st.clone()
 		st.Held[ln] = true
+		st.May[ln] = true
 		if st.Acq[ln] < 2 {
 			st.Acq[ln]++
 		}
@@ -550,6 +571,7 @@ func (w *LockWalker) call(fn *ssa.Function, r *Resolver, ins ssa.Instruction, cc
 			w.ev(rec, LEvent{Kind: "undecided", What: "unlock of a lock not (must-)held: " + ln, Pos: pos, Fn: fname, Stack: stack})
 		}
 		delete(st.Held, ln)
+		delete(st.May, ln)
 		w.ev(rec, LEvent{Kind: "release", What: ln, Pos: pos, Fn: fname, Held: st.heldList(), Stack: stack})
 		return st
 	}
